@@ -384,6 +384,24 @@ def history(cfg, case, out):
             w.step(5)
             w.remove_client(hv)
             w.step(int(2.2 / w.dt))              # the flood's half-open entries expire
+        # ---------- phase: a persistent off-path attacker: thousands of forged datagrams from an established victim's address,
+        #            spread over seconds, none authentic: however many there were, the connection stays what it is
+        if heavy and (case // 2 + cfg["shard"]) % 4 == 1:
+            w.phase = "established-under-forged-stream"
+            w.net.heal(0.002)
+            sc_a = run.sconn(a)
+            if sc_a is not None:
+                for k in range(4600):
+                    pt = (4, 6, 5, 3, 7)[k % 5]
+                    d = A.header("c2s", int(w.clock.now), (k * 7) % 65535 + 1, 1, pt, 24, 1, 0) + r.randbytes(40)
+                    w.offer_server(a.addr, d, "forged:stream")
+                    if k % 40 == 39:
+                        chatter()
+                        w.step()
+                atk.injected.inc("server|forged", 4600)
+                w.step(3)
+                atk.continuity(a, sc_a, "4600 forged")
+                run.c.inc("c01_established_under_forged_stream")
         # ---------- phase: a forged datagram with the victim's NEXT sequence number is queued at the server just ahead of the
         #            genuine one (same address, same tick): the genuine one is still processed
         w.phase = "queued-ahead-of-genuine"
